@@ -13,6 +13,7 @@ decided. Decided structural clauses (each a necessary condition):
 """
 from engines import (all_string_constants, enum_table, fmt_pieces, fn_fmt_templates, blocks_dominated_by_edge, body_and_closures, callee_generic,
                      callee_name, derived_locals, discr_switches, iter_operands_rv, op_place)
+from facts import iter_read_places
 from harness import Finding
 
 EXPLANATION = (
@@ -118,12 +119,22 @@ def run(facts, rep, tier):
         if rep.anchor("GUARD", n, f):
             fns[n] = f
             rep.functions.add(n)
-    guard(F, rep, fns)
+    # the semantic engines first: a kernel they decide completely (no undecided leaf) needs no structural fallback
+    decided = indexmap(F, rep)
+    decided.update(slicemap(F, rep))
+    # crate-local helpers the kernels delegate to belong to the kernels (bounds normalisation moved into a helper ...)
+    for n, f in list(fns.items()):
+        for q in F.closure([f.path], pred=lambda x: F.fns[x].crate == f.crate and "{" not in x.split("::")[-1]):
+            if q not in fns and q != f.path and len(F.fns[q].blocks) < 80 and "errors" not in q:
+                fns[q] = F.fns[q]
+    guard(F, rep, fns, decided)
     errkind(F, rep)
     overflow(F, rep, fns)
     slicetok(F, rep)
-    sibling(F, rep, fns)
-    indexmap(F, rep)
+    # SIBLING (comparison of the two slice kernels' operation multisets) is no longer an armed rule: it is syntactic and
+    # alarmed on behaviour-preserving refactorings of one kernel (DESIGN.md §6.3). Agreement of the kernels is decided
+    # semantically: SLICEMAP holds both against the same definition. The comparison is kept as a note in the evidence.
+    sibling_note(F, rep, fns)
 
 
 INDEX_KERNELS = (
@@ -141,6 +152,7 @@ def indexmap(F, rep):
     when the engine can state the region and the wrong outcome exactly; paths through operations it has no transfer
     function for are counted as undecided and never reported."""
     import idxeval
+    decided = {}
     for name, ia, la, kind in INDEX_KERNELS:
         f = F.fn(name)
         if not rep.anchor("INDEXMAP", name, f):
@@ -161,13 +173,59 @@ def indexmap(F, rep):
                             "%s: for %s the kernel yields %s, Python's definition says %s (e.g. idx=%s on a "
                             "container of length %s)" % (short, v["region"], v["got"], v["expected"], w.get("idx"),
                                                          w.get("len")), file=f.file, line=f.line, fn=f.path))
+        decided[short] = (undec == 0 and n > 0 and not viol)
         if undec:
-            rep.notes.append("INDEXMAP %s: %d of %d leaf regions undecided (operation outside the engine's "
-                             "transfer functions)" % (short, undec, n))
+            rep.notes.append("INDEXMAP %s: %d of %d leaf regions undecided (%s)" % (
+                short, undec, n, "; ".join(getattr(idxeval.check_kernel, "reasons", [])[:3])))
+    return decided
+
+
+SLICE_KERNELS = (
+    # function, positions of start / end / step
+    ("incan_core::strings::str_slice", 2, 3, 4),
+    ("incan_stdlib::collections::list_slice", 2, 3, 4),
+)
+
+
+def slicemap(F, rep):
+    """SLICEMAP — the slice kernels follow Python's `slice.indices(len)` for EVERY start / end / step / len: for each
+    combination of omitted / given bounds and each region of their values (below -len, negative, inside, beyond the
+    end) the first two positions the kernel takes, and the condition under which it takes them, equal
+    start', start'+step while (start' + k*step) is before end' — decided by relational abstract interpretation over the
+    (start, end, step, len) space (rules/idxeval.py). The loop body is the same code in every iteration, so what holds
+    for the symbolic first two iterations is the induction step of the whole loop."""
+    import idxeval
+    decided = {}
+    for name, a, b, c in SLICE_KERNELS:
+        f = F.fn(name)
+        if not rep.anchor("SLICEMAP", name, f):
+            continue
+        rep.functions.add(f.path)
+        short = name.split("::")[-1]
+        n, viol, undec = idxeval.check_slice_kernel(F, f, a, b, c)
+        rep.oblige("SLICEMAP", short, not viol, sample={"rule": "SLICEMAP", "kernel": name, "leaf_regions": n,
+                                                        "undecided": undec, "violations": viol[:2]})
+        seen = set()
+        for v in viol:
+            key = "SLICEMAP|%s|%s" % (short, v["case"])
+            if key in seen:
+                continue
+            seen.add(key)
+            w = v["witness"]
+            rep.add(Finding("SLICEMAP", key,
+                            "%s, case [%s]: %s (e.g. start=%s end=%s step=%s on a container of length %s)"
+                            % (short, v["case"], v["what"], w["start"], w["end"], w["step"], w["len"]),
+                            file=f.file, line=f.line, fn=f.path))
+        decided[short] = (undec == 0 and n > 0 and not viol)
+        if undec:
+            rep.notes.append("SLICEMAP %s: %d of %d leaf regions undecided (%s)" % (
+                short, undec, n, "; ".join(getattr(idxeval.check_slice_kernel, "reasons", [])[:3])))
+    return decided
 
 
 # ---------------------------------------------------------------------------------------------------------------
-def guard(F, rep, fns):
+def guard(F, rep, fns, decided=None):
+    decided = decided or {}
     # step == 0 before loops / construction
     for n, kind in (("incan_core::strings::str_slice", "err"), ("incan_stdlib::collections::list_slice", "raise"),
                     ("incan_stdlib::iter::range", "raise")):
@@ -198,21 +256,28 @@ def guard(F, rep, fns):
                 for s in f.stmts(b):
                     if s["s"] == "assign" and s["rv"]["r"] == "agg" and s["rv"].get("variant") == "SliceStepZero":
                         errs = True
-            # false side dominates: all arithmetic on `step`, and the PyRange aggregate
+            # false side dominates every later use of the tested value: arithmetic, comparisons, calls it is passed to,
+            # closures that capture it, aggregates (PyRange) built from it
+            tested = set()
+            for st0 in f.stmts(bi):
+                if st0["s"] == "assign" and not st0["d"]["p"] and st0["d"]["l"] == dl and st0["rv"]["r"] == "bin":
+                    pl0 = op_place(st0["rv"]["a"])
+                    if pl0 is not None:
+                        root = pl0["l"]
+                        for _ in range(6):
+                            d0 = f.single_def(root)
+                            if root in f.names or d0 is None or d0[2] != "assign" or d0[3]["r"] not in ("use", "cast"):
+                                break
+                            p1 = op_place(d0[3]["o"])
+                            if p1 is None or p1["p"]:
+                                break
+                            root = p1["l"]
+                        tested = derived_locals(f, root) | {root}
             uses = []
-            for b2, blk in enumerate(f.blocks):
-                for s in blk["st"]:
-                    if s["s"] != "assign":
-                        continue
-                    rv = s["rv"]
-                    if rv["r"] == "bin" and rv["op"] in ("Add", "Sub", "Mul") and \
-                            "step" in (operand_name(f, rv["a"]), operand_name(f, rv["b"])):
-                        uses.append(b2)
-                    if rv["r"] == "agg" and rv.get("adt", "").endswith("PyRange"):
-                        uses.append(b2)
-                t2 = blk["term"]
-                if t2["t"] == "call" and int_method(t2) and \
-                        "step" in [operand_name(f, o) for o in t2["args"]]:
+            for b2, si2, pl2, how2 in iter_read_places(f):
+                if b2 == bi or how2 in ("write", "ref_fake"):
+                    continue
+                if pl2["l"] in tested:
                     uses.append(b2)
             dominated = all(u in false_dom for u in uses)
             if errs and uses and dominated:
@@ -234,6 +299,10 @@ def guard(F, rep, fns):
                     if (b["term"]["t"] == "assert" and b["term"]["msg"] == "bounds") or
                     (b["term"]["t"] == "call" and (callee_generic(b["term"]) or "").endswith("Index::index")) or
                     (b["term"]["t"] == "call" and (callee_generic(b["term"]) or "").endswith("IndexMut::index_mut"))]
+        if decided.get(short):
+            rep.oblige("GUARD", "%s:bounds" % short, True,
+                       sample={"rule": "GUARD", "fn": n, "discharged_by": "INDEXMAP decides every (idx, len) region"})
+            continue
         if not rep.anchor("GUARD", "%s: element access" % short, accesses):
             continue
         ok, how = range_guarded(F, f, accesses)
@@ -579,7 +648,7 @@ def signature(f):
     return sorted(sig)
 
 
-def sibling(F, rep, fns):
+def sibling_note(F, rep, fns):
     a = fns.get("incan_core::strings::str_slice")
     b = fns.get("incan_stdlib::collections::list_slice")
     if a is None or b is None:
@@ -590,16 +659,7 @@ def sibling(F, rep, fns):
     for p in body_and_closures(F, b.path):
         sb += signature(F.fns[p])
     sa, sb = sorted(sa), sorted(sb)
-    ok = sa == sb
     only_a = sorted(set(sa) - set(sb))
     only_b = sorted(set(sb) - set(sa))
-    rep.oblige("SIBLING", "str_slice~list_slice", ok,
-               sample={"rule": "SIBLING", "operations": len(sa), "only_in_str_slice": only_a[:6],
-                       "only_in_list_slice": only_b[:6]})
-    rep.floor("SIBLING", "normalisation operations per slice kernel", min(len(sa), len(sb)), 20)
-    if not ok:
-        rep.add(Finding("SIBLING", "SIBLING|str_slice~list_slice",
-                        "str_slice and list_slice no longer normalise slice bounds with the same operations "
-                        "(only in str_slice: %s; only in list_slice: %s): strings and lists would slice differently "
-                        "for the same start/end/step" % (only_a[:6], only_b[:6]), file=a.file, line=a.line,
-                        fn=a.path))
+    rep.notes.append({"sibling_operations": {"str_slice": len(sa), "list_slice": len(sb),
+                                             "only_in_str_slice": only_a[:6], "only_in_list_slice": only_b[:6]}})
